@@ -19,9 +19,10 @@ Commands of a case (session `cqe`; the catalog names are cfg lines):
   qeq <obj> <obj>           hypatia's `==` / `!=` on two hand-built trees  ==  weq  ==  structEq
   subst <names> <obj>       Comparator._get_value observed through Eq(spy, value).execute(names=...)
 
-Known findings: D11 (bare value expressions / improper operands are returned, not rejected) and D17 (names nested
-in a tuple/list bound of a range are not substituted).  Both are mirrored by the model, not by the specification
-answer (`reject` / deep substitution), so they show up as I == M != S and are classified.
+Known finding: D11 (bare value expressions / improper operands are returned, not rejected).  It is mirrored by the
+model, not by the specification answer (`reject`), so it shows up as I == M != S and is classified.  Found here and
+since repaired in /repo (fix D21, 32c60f3): names nested in a tuple/list bound of a range were not substituted; the
+old witnesses are regression cases that must pass (witnesses()).
 
 Mutation sanity check (GUIDE step 7): 16 semantic mutations of hypatia/query/__init__.py, each in a scratch copy
 (VERIF_REPO=/var/tmp/mut_cqe_N, deleted afterwards), all 16 reported VIOLATION with a concrete replay:
@@ -42,6 +43,9 @@ Mutation sanity check (GUIDE step 7): 16 semantic mutations of hypatia/query/__i
   M14 containment takes the index from the left operand                                    caught (parse `a in b`)
   M15 5-child Compare accepts Gt/Ge chains                                                 caught (`a < k > 5` accepted as InRange)
   M16 Name.__eq__ is True for any two Names                                                caught (qeq)
+After fix D21 (range bounds through _get_value) the range-related ones were rerun (M1, M4, M10, M11, M15: caught) plus
+  M17 fix D21 reverted for the end bound only                                              caught (regression witness)
+  M18 start bound resolved from the end bound's value                                      caught (regression witness)
 """
 import ast
 import io
@@ -63,7 +67,8 @@ THEOREMS = ["Hyp.Cqe." + t for t in (
     "c10_recogniser", "c10_only_spellings_parse_to_queries", "c10_walk_iff_spelling", "c10_spec_answer",
     "c10_outside_language_rejected", "c10_outside_language_partial", "c10_d11_top_level", "c10_d11_not_value",
     "c10_d11_query_as_value", "c10_subst", "c10_subst_error_iff", "c10_leaf_resolution",
-    "c10_constant_values_unchanged", "c10_range_subst_partial", "c10_d17_witness", "c10_eq_is_structural",
+    "c10_constant_values_unchanged", "c10_range_subst", "c10_range_error_iff", "c10_d21_regression",
+    "c10_eq_is_structural",
     "c10_structEq_refl", "c10_eq_only_on_fragment", "c10_parsed_equals_hand_built", "c10_embeds_in_query_algebra")]
 CASES = {"quick": 8000, "thorough": 300000}
 BUDGET_S = {"quick": 40, "thorough": 700}
@@ -1146,7 +1151,7 @@ def gen(rng, tier, idx):
 
 # ---------------------------------------------------------------------------- classification, witnesses
 def classify(case, i, impl, model, spec):
-    """the model mirrors D11 / D17, the specification answer does not: the implementation may agree with the model
+    """the model mirrors D11, the specification answer does not: the implementation may agree with the model
     (known finding reproduces) or with the specification (it was repaired); anything else is unlisted"""
     c = case["cmds"][i]
     if c[0] == "parse" and spec == "reject" and model.startswith("ok"):
@@ -1154,8 +1159,6 @@ def classify(case, i, impl, model, spec):
             return "D11"
     if c[0] in ("exec", "run") and spec == "reject" and not model.startswith("err "):
         return "D11"        # the parsed object is not a query tree over values; `parse` on the same text compares it
-    if c[0] == "exec" and model != spec and "range" in model and impl in (model, spec):
-        return "D17"
     return None
 
 
@@ -1166,8 +1169,11 @@ D11_SRC = ["a", "1", "a == 1,", "not 1", "a.foo", "[1, 2]", "any([1])", "not 1 a
 def witnesses():
     out = [("D11", make_case([["parse", hx(s)]])) for s in D11_SRC]
     nm = [2, hx("x"), "i:1", hx("y"), "i:2"]
-    out.append(("D17", make_case([["exec"] + nm + [hx("(x, 1) <= a <= (y, 2)")]])))
-    out.append(("D17", make_case([["exec"] + nm + [hx("[x] < b < 5")]])))
+    # regression (fix D21): names nested in range bounds are substituted; on a real index the query now runs
+    out.append(("regression-D21", make_case([["exec"] + nm + [hx("(x, 1) <= a <= (y, 2)")],
+                                             ["exec"] + nm + [hx("[x] < b < 5")],
+                                             ["exec", 1, hx("x"), "i:1", hx("(x, [y]) <= a <= 2")],
+                                             ["run"] + nm + [hx("(x, 1) <= a <= (y, 2)")]])))
     return out
 
 
